@@ -72,7 +72,7 @@ func runC02(c *Ctx) bool {
 			continue
 		}
 		r := gen.New(c.Seed, 202, uint64(j))
-		classes := []int{gen.ClassPlain, gen.ClassBullet, gen.ClassBlankEdge, gen.ClassUnicode, gen.ClassQuoting, gen.ClassExt}
+		classes := []int{gen.ClassPlain, gen.ClassBullet, gen.ClassBlankEdge, gen.ClassUnicode, gen.ClassQuoting, gen.ClassExt, gen.ClassCase}
 		f := gen.RandForest(r, []int{8, 20, 50}[r.Intn(3)], r.Range(2, 9), classes, []int{0, 20}[r.Intn(2)])
 		cs := &Case{Idx: idx, Kind: "random", Seed: r.Uint64()}
 		cs.Depths, cs.Names = gen.Depths(f)
